@@ -592,6 +592,9 @@ class DistributedNetwork(BaseManager):
     async def _on_session_initialized(self, event: SessionInitializedEvent):
         self._session = event.session
         await self._notify_server_of_parent()
+        # Children that were added or whose position changed while there was
+        # no session have not been told our branch values
+        await self._notify_children_of_branch_values()
 
     async def _on_session_destroyed(self, event: SessionDestroyedEvent):
         self._session = None
